@@ -86,6 +86,7 @@ struct DecState {
     std::vector<int16_t> clip;
     size_t fed = 0;
     bool f32 = false;
+    double fgain = 1.0; // C18: float input scaled beyond +-1.0
     int64_t searched = 0; // sum of process return values in this utterance
     int nfr_start = 0;
     int probe_id = -1;
@@ -1120,6 +1121,138 @@ struct Exec {
         dict_check_all(s, opi, "after an accepted addition");
     }
 
+    // ---- C18: features and scores stay finite and within range for any audio
+    void c18_features(DecState &s, int opi)
+    {
+        // dynamic features of the frames buffered so far (no_search feeding keeps them in the public feature buffer)
+        acmod_t *am = s.d->acmod;
+        feat_t *fcb = am->fcb;
+        int k = 0;
+        for (int i = 0; i < feat_n_stream(fcb); ++i)
+            k += (int)feat_stream_len(fcb, i);
+        int64_t bad_vals = 0, n = 0;
+        for (int f = 0; f < am->n_feat_frame; ++f) {
+            int idx = (am->feat_outidx + f) % am->n_feat_alloc;
+            const mfcc_t *v = am->feat_buf[idx][0];
+            for (int q = 0; q < k; ++q, ++n)
+                if (!std::isfinite((double)v[q]))
+                    bad_vals++;
+        }
+        out.checks++;
+        out.probes["c18.feature_values_checked"] += n;
+        if (bad_vals)
+            viol("C18", "features_finite", "dynamic_features", std::to_string(bad_vals) + " of " + std::to_string(n) + " dynamic-feature values are not finite", opi);
+        // channel-normalisation state: finite, and export/import is a fixpoint at text level
+        const char *c1 = decoder_get_cmn(s.d, 0);
+        std::string s1 = c1 ? c1 : "";
+        if (s1.find("nan") != std::string::npos || s1.find("inf") != std::string::npos)
+            viol("C18", "cmn_finite", "text", "channel-normalisation state is not finite: " + s1, opi);
+        if (!s.in_utt) {
+            decoder_set_cmn(s.d, s1.c_str());
+            const char *c2 = decoder_get_cmn(s.d, 0);
+            std::string s2 = c2 ? c2 : "";
+            out.checks++;
+            if (s1 != s2)
+                viol("C18", "cmn_roundtrip", "fixpoint", "CMN exported as '" + s1 + "' re-imports as '" + s2 + "'", opi);
+            out.probes["c18.cmn_roundtrips"]++;
+        }
+    }
+    void c18_cepstra(DecState &s, int opi)
+    {
+        // cepstra of the whole clip through the decoder's own front end configuration (a second fe_t: the decoder's is busy)
+        fe_t *fe = fe_init(s.d->config);
+        if (!fe)
+            return;
+        int dim = fe_get_output_size(fe);
+        size_t N = s.clip.size();
+        int cap = (int)(N / (size_t)std::max(1, H)) + 3;
+        mfcc_t **buf = (mfcc_t **)ckd_calloc_2d((size_t)cap, (size_t)dim, sizeof(mfcc_t));
+        int total = 0;
+        if (s.f32 && s.fgain != 1.0) {
+            std::vector<float> f(N);
+            for (size_t i = 0; i < N; ++i)
+                f[i] = (float)s.clip[i] / 32768.0f * (float)s.fgain;
+            float32 *p = f.data();
+            size_t n = N;
+            while (n > 0 && total < cap) {
+                int r2 = fe_process_float32(fe, &p, &n, buf + total, cap - total);
+                if (r2 < 0)
+                    break;
+                total += r2;
+            }
+        } else {
+            std::vector<int16_t> c = s.clip;
+            int16 *p = c.data();
+            size_t n = N;
+            while (n > 0 && total < cap) {
+                int r2 = fe_process_int16(fe, &p, &n, buf + total, cap - total);
+                if (r2 < 0)
+                    break;
+                total += r2;
+            }
+        }
+        if (total < cap)
+            total += fe_end(fe, buf + total, cap - total);
+        int64_t bad_vals = 0;
+        for (int f = 0; f < total; ++f)
+            for (int q = 0; q < dim; ++q)
+                if (!std::isfinite((double)buf[f][q]))
+                    bad_vals++;
+        out.checks++;
+        out.probes["c18.cepstral_values_checked"] += (int64_t)total * dim;
+        if (bad_vals)
+            viol("C18", "features_finite", "cepstra", std::to_string(bad_vals) + " cepstral values are not finite", opi);
+        ckd_free_2d(buf);
+        fe_free(fe);
+    }
+    void c18_scores(DecState &s, const Rec &r, int opi)
+    {
+        // path score: no wrap-around (UBSan signed-integer-overflow is armed in this build), above the floor, and a
+        // probability (<= 0 in the log domain) when no penalty exceeds one
+        if (r.score_set) {
+            out.checks++;
+            if (r.score > 0)
+                viol("C18", "path_score_range", "positive", "path score " + std::to_string(r.score) + " is positive", opi);
+            if (r.score <= WORST_SCORE)
+                viol("C18", "path_score_range", "at_floor", "path score " + std::to_string(r.score) + " is at or below the floor", opi);
+        }
+        // senone scores of every frame, second pass over the buffered features the way the aligner does it; only
+        // with compallsen: otherwise inactive entries hold stale values by construction
+        acmod_t *am = s.d->acmod;
+        if (!am->compallsen || !am->grow_feat)
+            return;
+        int total = am->output_frame;
+        if (acmod_rewind(am) < 0)
+            return;
+        int nsen = bin_mdef_n_sen(am->mdef);
+        int64_t frames = 0;
+        while (am->output_frame < total) {
+            int fi = am->output_frame;
+            const int16 *sc = acmod_score(am, &fi);
+            if (!sc)
+                break;
+            int mn = 32767 + 1, mx = -1, neg = 0;
+            for (int i = 0; i < nsen; ++i) {
+                if (sc[i] < 0)
+                    neg++;
+                mn = std::min<int>(mn, sc[i]);
+                mx = std::max<int>(mx, sc[i]);
+            }
+            out.checks++;
+            if (neg)
+                viol("C18", "senone_score_range", "negative", "frame " + std::to_string(fi) + ": " + std::to_string(neg) + " senone scores are negative (16-bit wrap)", opi);
+            else if (mn != 0)
+                viol("C18", "senone_score_range", "best_not_zero", "frame " + std::to_string(fi) + ": best senone score is " + std::to_string(mn) + ", not 0", opi);
+            acmod_advance(am);
+            frames++;
+            if (!out.violations.empty())
+                break;
+        }
+        while (am->output_frame < total)
+            acmod_advance(am);
+        out.probes["c18.frames_senone_checked"] += frames;
+    }
+
     // ---- ops
     bool load_grammar(DecState &s, const Json &g, int opi)
     {
@@ -1165,7 +1298,7 @@ struct Exec {
         if (s.f32) {
             float *heap = (float *)malloc(sizeof(float) * (len ? len : 1));
             for (size_t i = 0; i < len; ++i)
-                heap[i] = (float)s.clip[s.fed + i] / 32768.0f;
+                heap[i] = (float)s.clip[s.fed + i] / 32768.0f * (float)s.fgain;
             rv = decoder_process_float32(s.d, heap, len, ns, full);
             free(heap);
         } else {
@@ -1220,6 +1353,8 @@ struct Exec {
                 check_nbest(s, L, (int)op.geti("k", 5), op.getb("abandon"), opi);
             if (what == "post" && dag)
                 check_posteriors(s, dag, L, opi);
+        } else if (what == "c18") {
+            c18_features(s, opi);
         } else if (what == "json") {
             check_json(s, op, final, opi);
         } else if (what == "align") {
@@ -1263,6 +1398,11 @@ struct Exec {
         if (want_align) {
             capture_alignment(s.d, r);
             check_alignment(s, r, opi);
+        }
+        if (profile == "C18") {
+            c18_cepstra(s, opi);
+            c18_features(s, opi);
+            c18_scores(s, r, opi);
         }
         Json rj = r.to_json(true);
         if (s.probe && profile == "C08") {
@@ -1425,6 +1565,7 @@ struct Exec {
                 s.clip = audio::render(op["sig"], quiet ? nullptr : &out.faults);
                 s.fed = 0;
                 s.f32 = op.gets("enc") == "f32";
+                s.fgain = op.getd("fgain", 1.0);
                 s.searched = 0;
                 s.n_queries = s.n_calls = 0;
                 s.sched_noncanonical = false;
@@ -1842,7 +1983,7 @@ static const char *pick_tmpl(Rng &r)
 
 struct DecWorld : World {
     const char *name() const override { return "dec"; }
-    std::vector<std::string> properties() const override { return { "C01", "C03", "C04", "C07", "C08", "C11", "C12", "C14", "C16" }; }
+    std::vector<std::string> properties() const override { return { "C01", "C03", "C04", "C07", "C08", "C11", "C12", "C14", "C16", "C18" }; }
     int64_t default_runs(const std::string &p, int tier) const override
     {
         if (p == "C07" || p == "C08")
@@ -1855,6 +1996,8 @@ struct DecWorld : World {
             return tier ? 50000 : 1200;
         if (p == "C16")
             return tier ? 50000 : 1400;
+        if (p == "C18")
+            return tier ? 8000 : 500;
         return tier ? 60000 : 1600;
     }
     int watchdog_s(const std::string &) const override { return 120; }
@@ -1874,6 +2017,14 @@ struct DecWorld : World {
             return common + "C08: 2-3 decoders with 1-5 earlier utterances each (any grammar/audio/mode/outcome), interleaved call by call, then a probe utterance (decoded twice) whose "
                             "record must equal that of a pristine sibling process. Non-trivial: the probed decoder had at least one earlier utterance and the probe produced a "
                             "segmentation; distinct = distinct plan digest";
+        if (p == "C18")
+            return common + "C18 (built with UBSan signed-integer-overflow and float-cast-overflow armed in the library): the hostile channel - digital silence, full-scale square waves, "
+                            "impulses, DC +-30000, white noise at several levels, alternating silence/noise, speech with dropouts/clipping/bursts, float input scaled up to 1e6 times full "
+                            "scale, and a long-stream profile (quick: 30 s, thorough: 4 min in 0.1 s chunks) - over 2-6 utterances on one decoder with the CMN state carried and "
+                            "exported/imported between them. Oracle: every cepstral value (a second fe_t with the decoder's configuration) and every dynamic-feature value (public feature "
+                            "buffer under no_search feeding) finite; CMN text finite and set(get()) a fixpoint at text level; with compallsen every senone score of every frame in "
+                            "[0,32767] with best = 0 (second scoring pass over the buffered features); path score <= 0 and above the floor; no signed overflow anywhere (UBSan). "
+                            "Non-trivial: cepstra were checked and senone scores or a CMN round trip too; distinct = distinct plan digest";
         if (p == "C16")
             return common + "C16: histories of decoder_add_word (new words, numbered alternates of new and existing words, duplicates, unknown phone, alternate without base, empty word, "
                             "empty/blank pronunciation, 1- to 12-phone words, 4200 bulk additions to cross the table growth) interleaved with lookups, grammar loads and alignment texts using "
@@ -1933,7 +2084,6 @@ struct DecWorld : World {
 
     Json generate(const std::string &prop, uint64_t seed, int tier) override
     {
-        (void)tier;
         Rng r(seed);
         Json plan = Json::object();
         plan.set("world", "dec");
@@ -2007,6 +2157,82 @@ struct DecWorld : World {
             int nu = (int)r.weighted({ 0, 65, 30, 5 });
             for (int u = 0; u < nu; ++u)
                 g.utterance(0, t, u == 0 || r.chance(0.5), false, r.chance(0.2), r.chance(0.1), 48000, r.chance(0.8) ? 0.4 : 0.1, r.chance(0.2), r.chance(0.3));
+        } else if (prop == "C18") {
+            // the hostile channel, CMN carried across 3-6 utterances and exported/imported between them
+            std::string t = r.chance(0.6) ? "enc" : pick_tmpl(r);
+            add_dec(t);
+            g.allow_align = false;
+            std::string lng = lang_of(t);
+            // a small looping grammar so that long streams stay cheap
+            {
+                Json go = Json::object();
+                go.set("op", "grammar");
+                go.set("g", r.chance(0.5) ? grammar::gen_align(r, lang(lng).vocab, prefer_words(lng == "en" ? "goforward" : "goforward_fr")) : grammar::gen_fsg(r, lang(lng).vocab));
+                g.push(go, 0);
+            }
+            int nu = (int)r.range(2, tier ? 6 : 4);
+            bool long_stream = r.chance(tier ? 0.15 : 0.05);
+            for (int u = 0; u < nu; ++u) {
+                int maxn = long_stream && u == 0 ? (tier ? 16000 * 240 : 16000 * 30) : 48000;
+                Json sig = audio::random_spec(r, maxn, true, r.chance(0.2) ? (lng == "en" ? "goforward" : "goforward_fr") : "");
+                if (long_stream && u == 0)
+                    sig.set("n", maxn);
+                else if (sig.geti("n") > 48000)
+                    sig.set("n", 48000);
+                // the extremes the property names
+                if (r.chance(0.4)) {
+                    switch (r.below(6)) {
+                    case 0: sig.set("src", "silence"); break;
+                    case 1: sig.set("src", "square"); sig.set("period", (long long)r.range(2, 64)); break;
+                    case 2: sig.set("src", "impulse"); sig.set("period", (long long)r.range(1, 20000)); break;
+                    case 3: sig.set("src", "dc"); sig.set("amp", r.chance(0.5) ? 30000 : -30000); break;
+                    case 4: sig.set("src", "noise"); sig.set("amp", r.pick(std::vector<int> { 1, 100, 32767 })); break;
+                    default: sig.set("src", "altern"); sig.set("period", (long long)r.range(160, 16000));
+                    }
+                    sig.erase("off");
+                }
+                Json b = Json::object();
+                b.set("op", "begin");
+                b.set("sig", sig);
+                bool f32 = r.chance(0.35);
+                b.set("enc", f32 ? "f32" : "i16");
+                if (f32 && r.chance(0.5))
+                    b.set("fgain", r.pick(std::vector<double> { 1.0, 4.0, 100.0, 1e6 }));
+                g.push(b, 0);
+                int64_t left = sig.geti("n");
+                bool buffered = r.chance(0.5); // buffer everything first (features readable), search in end_utt
+                int64_t chunk = long_stream && u == 0 ? 1600 : r.pick(std::vector<int> { 160, 1600, 8000, 48000 });
+                Json f = Json::object();
+                f.set("op", "feed");
+                f.set("len", (long long)chunk);
+                f.set("rep", (long long)std::max<int64_t>(1, left / chunk + 1));
+                if (buffered && !(long_stream && u == 0))
+                    f.set("ns", true);
+                g.push(f, 0);
+                if (r.chance(0.5)) {
+                    Json q = Json::object();
+                    q.set("op", "query");
+                    q.set("what", "c18");
+                    g.push(q, 0);
+                }
+                if (r.chance(0.3)) { // path scores of the second pass too (state aligner), mid-utterance
+                    Json q = Json::object();
+                    q.set("op", "query");
+                    q.set("what", "align");
+                    g.push(q, 0);
+                }
+                Json e = Json::object();
+                e.set("op", "end");
+                if (r.chance(0.4))
+                    e.set("align", true);
+                g.push(e, 0);
+                if (r.chance(0.6)) {
+                    Json q = Json::object();
+                    q.set("op", "query");
+                    q.set("what", "c18"); // CMN export/import between utterances
+                    g.push(q, 0);
+                }
+            }
         } else if (prop == "C16") {
             std::string t = pick_tmpl(r);
             add_dec(t);
@@ -2349,6 +2575,8 @@ struct DecWorld : World {
             out.nontrivial = out.probes.count("align.hierarchy_checked") > 0;
         else if (prop == "C14")
             out.nontrivial = out.probes.count("json.checked") > 0;
+        else if (prop == "C18")
+            out.nontrivial = out.probes.count("c18.cepstral_values_checked") > 0 && (out.probes.count("c18.frames_senone_checked") > 0 || out.probes.count("c18.cmn_roundtrips") > 0);
         else if (prop == "C16")
             out.nontrivial = out.probes.count("dict.expected_accept") > 0 && (out.probes.count("dict.lookup") > 0 || out.probes.count("dec.final_result") > 0);
         else if (prop == "C11")
